@@ -339,6 +339,44 @@ pub fn ternary_family(tier: Tier) -> Vec<Built> {
     out
 }
 
+/// F9: weight vectors whose first k (and, mirrored, last k) entries are zero, for every k, on every
+/// kind of entry (character n-gram, type n-gram, dictionary word) and windows 1..=4 and 9: any
+/// "skip the zeros and shift the position" shortcut meets the sentence start / end here.
+pub fn leading_zero_family() -> Vec<(String, ModelSpec)> {
+    use crate::mirror::{NgramData, WordWeightRecord};
+    let mut out = vec![];
+    for w in [1u8, 2, 3, 4, 9] {
+        for kind in 0..3u8 {
+            let len = match kind {
+                0 | 1 => 2 * w as usize, // unigram
+                _ => 3,                  // dictionary word "ab": 3 weights
+            };
+            for k in 1..len {
+                for mirrored in [false, true] {
+                    let mut wv: Vec<i32> = (0..len).map(|i| if i < k { 0 } else { 5 + 3 * i as i32 }).collect();
+                    if mirrored {
+                        wv.reverse();
+                    }
+                    let mut m = ModelSpec { bias: -1, char_window_size: w, type_window_size: w, ..Default::default() };
+                    match kind {
+                        0 => m.char_ngram_model.push(NgramData { ngram: "a".into(), weights: wv }),
+                        1 => m.type_ngram_model.push(NgramData { ngram: vec![2], weights: wv }),
+                        _ => m.dict_model.push(WordWeightRecord { word: "ab".into(), weights: wv, comment: String::new() }),
+                    }
+                    // a second entry of another kind so that both scorers exist
+                    if kind == 0 {
+                        m.type_ngram_model.push(NgramData { ngram: vec![3], weights: vec![1; 2 * w as usize] });
+                    } else {
+                        m.char_ngram_model.push(NgramData { ngram: "あ".into(), weights: vec![1; 2 * w as usize] });
+                    }
+                    out.push((format!("leading-zeros w={w} kind={kind} k={k} mirrored={}", mirrored as u8), m));
+                }
+            }
+        }
+    }
+    out
+}
+
 /// F3: large windows; single- and two-entry models; long runs.
 fn f3(tier: Tier) -> (Vec<Built>, Vec<Vec<char>>) {
     let mut ms = vec![];
@@ -470,6 +508,9 @@ pub fn run(tier: Tier) -> ! {
         chk.set("f8_texts", json!(t8.len()));
         f8.par_iter().enumerate().for_each(|(i, b)| check_model(&chk, b, &t8, i % 16 == 0));
     }
+    let f9: Vec<Built> = leading_zero_family().into_iter().map(|(desc, spec)| Built { spec, desc }).collect();
+    fam_counts.insert("F9-leading-zeros".into(), json!(f9.len()));
+    f9.par_iter().for_each(|b| check_model(&chk, b, &texts, true));
     let (ms, t3) = f3(tier);
     fam_counts.insert("F3-large-windows".into(), json!(ms.len()));
     chk.set("f3_texts", json!(t3.len()));
